@@ -130,6 +130,7 @@ package c08
 import (
 	stderrors "errors"
 	"fmt"
+	"math/big"
 	"math/rand"
 	"os"
 	"regexp"
@@ -2151,6 +2152,79 @@ const ruleText = "node contexts {root, object property, array item} x {integer, 
 	"checks: verdict equal across orderings, spellings, configurations and call histories (history: also the error code), and equal to the specification predicate rulesOK (which does not see spelling, option or history); nontrivial = at least 2 rules, or an or value with a multi-rule member (orderings exist)"
 
 // Run is the entry point of `vh c08-rules`.
+// ---------------------------------------------------------------------------
+// paired bounds on numerals around machine-word boundaries
+// ---------------------------------------------------------------------------
+
+// "paired bounds are ordered (min<=max, strictly when either is exclusive)" holds for every numeral the schema language
+// can write, whatever its size: bounds and examples from a pool around 2^31, 2^32, 2^53, 2^63, 2^64, 10^19, 10^20, 10^21
+// (both signs, with fraction digits), every ordered pair, exclusive flags, at root / as property / as array item / inside
+// an or rule-set member; the expectation is exact arithmetic (math/big).
+func bigBoundsStream(rep *vh.Report) {
+	var pool []string
+	pow := func(b, e int64) *big.Int { return new(big.Int).Exp(big.NewInt(b), big.NewInt(e), nil) }
+	for _, c := range []*big.Int{pow(2, 31), pow(2, 32), pow(2, 53), pow(2, 63), pow(2, 64), pow(10, 19), pow(10, 20), pow(10, 21), pow(2, 96)} {
+		for _, d := range []int64{-2, -1, 0, 1, 5} {
+			v := new(big.Int).Add(c, big.NewInt(d))
+			pool = append(pool, v.String())
+		}
+		pool = append(pool, "-"+c.String(), c.String()+".5", new(big.Int).Sub(c, big.NewInt(1)).String()+".25")
+	}
+	pool = append(pool, "0", "5", "-5")
+	val := func(s string) *big.Rat { r, _ := new(big.Rat).SetString(s); return r }
+	kindOf := func(s string) string {
+		if strings.Contains(s, ".") {
+			return "float"
+		}
+		return "integer"
+	}
+	r := vh.NewRand(8821)
+	n := vh.Pick(2500, 40000)
+	for i := 0; i < n; i++ {
+		a, b, ex := pool[r.Intn(len(pool))], pool[r.Intn(len(pool))], pool[r.Intn(len(pool))]
+		if i%3 == 0 { // example inside [a, b] when possible: the pair ordering alone decides
+			ex = a
+		}
+		exMin, exMax := r.Intn(4) == 0, r.Intn(4) == 0
+		rules := []string{"min: " + a, "max: " + b}
+		if exMin {
+			rules = append(rules, "exclusiveMinimum: true")
+		}
+		if exMax {
+			rules = append(rules, "exclusiveMaximum: true")
+		}
+		r.Shuffle(len(rules), func(i, j int) { rules[i], rules[j] = rules[j], rules[i] })
+		ann := "{" + strings.Join(rules, ", ") + "}"
+		va, vb, ve := val(a), val(b), val(ex)
+		ordered := va.Cmp(vb) < 0 || (va.Cmp(vb) == 0 && !exMin && !exMax)
+		inside := (ve.Cmp(va) > 0 || (ve.Cmp(va) == 0 && !exMin)) && (ve.Cmp(vb) < 0 || (ve.Cmp(vb) == 0 && !exMax))
+		var text string
+		form := r.Intn(4)
+		want := ordered && inside
+		switch form {
+		case 0:
+			text = ex + " // " + ann
+		case 1:
+			text = "{\n  \"k\": " + ex + " // " + ann + "\n}"
+		case 2:
+			text = "[\n  " + ex + " // " + ann + "\n]"
+		default: // or rule-set member: the example is not matched against the member's bounds, only their order counts
+			text = "\"s\" // {or: [{type: \"" + kindOf(a+b) + "\", " + strings.TrimSuffix(strings.TrimPrefix(ann, "{"), "}") + "}, \"string\"]}"
+			want = ordered
+		}
+		got := check(text, false)
+		rep.Case("bigbounds:"+text, true)
+		rep.Stat("big_bounds")
+		if want {
+			rep.Stat("big_bounds_accepted")
+		}
+		if (got.text == "OK") != want {
+			rep.AddDiff(vh.Diff{Component: "C08-big-bounds", Input: text, Impl: "Check() = " + got.text,
+				Model: fmt.Sprintf("exact arithmetic: bounds ordered = %v, example inside = %v => accept = %v", ordered, inside, want)})
+		}
+	}
+}
+
 func Run(args []string) {
 	rep := vh.NewReport("c08-rules", ruleText)
 	debug.SetGCPercent(400) // many short-lived schema objects: the collector otherwise takes a quarter of the run
@@ -2297,5 +2371,6 @@ func Run(args []string) {
 			}
 		}
 	}
+	bigBoundsStream(rep)
 	rep.Finish()
 }
